@@ -375,6 +375,9 @@ func (w *World) doOrchPoll(in Intent) {
 	}
 	if in.Skip > 0 {
 		w.St.Fault("orch_skip_ahead")
+		// an orchestrator that skipped a nonce can never vote for it again: it is not part of the honest quorum
+		// of this chain any more (bounded liveness is owed only with >= 66 % honest live power)
+		w.SkippedAhead[in.Chain+"/"+v.Oper.ValAddr().String()] = true
 	}
 	max := in.N
 	if max < 1 {
